@@ -1264,10 +1264,24 @@ class Extractor:
                 break
         if k1 < 0:
             raise AnchorLost("%s: block start `%s` not found" % (ident, fs.block[0]))
-        k2 = orig.find(fs.block[1], k1)
-        if k2 < 0:
-            raise AnchorLost("%s: block end `%s` not found after the block start" % (ident, fs.block[1]))
-        k2 += len(fs.block[1])
+        if fs.block[1] == ";":
+            # the block is the ONE statement that starts with the first snippet: up to its `;` at depth 0
+            om = mask_source(orig)
+            k2, depth = k1, 0
+            while k2 < len(om):
+                ch = om[k2]
+                depth += (ch in "([{") - (ch in ")]}")
+                if ch == ";" and depth == 0:
+                    break
+                k2 += 1
+            if k2 >= len(om):
+                raise AnchorLost("%s: end of the statement starting with `%s` not found" % (ident, fs.block[0]))
+            k2 += 1
+        else:
+            k2 = orig.find(fs.block[1], k1)
+            if k2 < 0:
+                raise AnchorLost("%s: block end `%s` not found after the block start" % (ident, fs.block[1]))
+            k2 += len(fs.block[1])
         seg = orig[k1:k2]
         segm = mask_source(seg)
         depth = 0
